@@ -163,7 +163,10 @@ def grad_case(rng, pipeline_name, n_steps, singular, opts=None):
   q, qd = modelgen.rand_state(rng, sysm, q_range=0.6, qd_range=0.5)
   ctrl = rng.uniform(-1, 1, size=sysm.act_size())
   if singular:
+    # at rest, zero joint angles, zero control: every whole-vector guard (safe_norm of a zero velocity, coincident
+    # anchors, contact-point velocity exactly along the normal) sits on its singular point
     qd = np.zeros_like(qd)
+    ctrl = np.zeros_like(ctrl)
     pos = 0
     for t in sysm.link_types:
       w = 7 if t == 'f' else int(t)
@@ -204,7 +207,16 @@ def grad_cases(ctx, n_per_pipeline, seed_offset=0):
   fails, n = [], 0
   for name in ('generalized', 'spring', 'positional'):
     for k in range(n_per_pipeline * 2):
-      r = grad_case(rng, name, n_steps=int(rng.integers(1, 3)), singular=(k % 2 == 1), opts=dict(n_links=(1, 2)) if n_per_pipeline == 1 else None)
+      sing = (k % 2 == 1)
+      o = dict(n_links=(1, 2)) if n_per_pipeline == 1 else {}
+      if sing:
+        # singular inputs are taken on models WITH collision candidates (touching or not): contact code is differentiated too
+        o.update(collide=True, ground=True, geoms=('sphere', 'capsule'))
+        if (k // 2) % 2 == 0:
+          # a free body dropped at rest: its contact-point velocity is exactly along the contact normal, so every
+          # tangential quantity (friction direction, drag) is the zero vector
+          o.update(n_links=(1, 1), roots='free', geoms=('sphere',))
+      r = grad_case(rng, name, n_steps=int(rng.integers(1, 3)), singular=sing, opts=o)
       n += 1
       if r is not None:
         fails.append(r)
